@@ -144,12 +144,12 @@ def run(tier: str, replay: str | None = None):
         for i, c in enumerate(json.loads(CORPUS.read_text())["programs"]):
             programs.append({"name": f"corpus{i}", "source": c["source"], "enabled": c.get("enabled")})
             feats[f"corpus{i}"] = ["corpus:" + c["name"]]
-        n_gen = 500 if tier == "quick" else 4000
+        n_gen = 300 if tier == "quick" else 4000
         for i in range(n_gen):
             src, fs = gen_c12.gen_program(rng)
             programs.append({"name": f"gen{i}", "source": src, "enabled": gen_c12.gen_enabled(rng, all_codes)})
             feats[f"gen{i}"] = fs
-        value_pairs = 12000 if tier == "quick" else 120000
+        value_pairs = 8000 if tier == "quick" else 120000
         ecases = emit_cases(rng, 150 if tier == "quick" else 1500, 4 if tier == "quick" else 7)
         alphabet = ["a", "Z", " ", "0", "\u00e4", "\u00df", "\u65e5", "\u20ac", "\U0001f600", "\u0416"]
         ccases = ["".join(rng.choice(alphabet) for _ in range(rng.randrange(0, 12))) for _ in range(60 if tier == "quick" else 600)]
